@@ -304,6 +304,15 @@ func ReplayPath(spec Spec, path []Op) (string, error) {
 		}
 		return "", err
 	}
+	if spec.Has("coldop") {
+		v, h := coldOp(sp, path[:len(path)-1], path[len(path)-1])
+		if h != "" {
+			return "", fmt.Errorf("%s", h)
+		}
+		if v != "" {
+			return "with a commit placed before the last operation: " + v, nil
+		}
+	}
 	return "", nil
 }
 
